@@ -558,7 +558,8 @@ def s9_command_table(ctx):
         lib = all(res and not res.startswith("net::") and not res.startswith("storage::") for _, res in doms)
         r.add(f, "Command::%s only behind name == %r" % (var, want.decode()), good and lib, where(b, bb), "" if good and lib else ("guards: %s" % [(l, rs) for l, rs in doms] if doms else "no literal equality test dominates this dispatch (custom comparison?)"))
     # the tested name is the first element
-    r.add(f, "dispatch sites found", len(aggs) == 3, short_span(b.span), "%s" % aggs)
+    have = {v for bb, v in aggs}
+    r.add(f, "dispatch sites found", {"Set", "Get", "Del"} <= have, short_span(b.span), "%s" % aggs)
     # every other path is an error
     site_bbs = {bb for bb, v in aggs}
     classes = {c for c, d, rb in ret_classes(b, 0, lambda e: e.kind == "unwind" or e.dst in site_bbs)}
